@@ -25,10 +25,12 @@ BIG = {
     "qp3": {"quick": [(130, 130), (161, 161), (200, 200), (140, 170)],
             "thorough": [(129, 129), (130, 130), (160, 160), (161, 161), (162, 200), (200, 161), (200, 200), (140, 170),
                          (193, 193)]},
+    "tri": {"quick": [(70, 70), (97, 97), (130, 130)],
+            "thorough": [(n, n) for n in (63, 64, 65, 66, 96, 100, 127, 128, 129, 130, 200)]},
     "larft": {"quick": [], "thorough": []},
 }
 LEMMA = {"quick": dict(SMALL=5, BIG=[(12, 12), (9, 14)]), "thorough": dict(SMALL=8, BIG=[(20, 20), (33, 30), (14, 25)])}
-FAMS = ("lu", "chol", "qr", "qp3", "larft")
+FAMS = ("lu", "chol", "qr", "qp3", "tri", "larft")
 FORCED = {"quick": [(1, 0), (2, 0), (3, 0), (4, 0), (2, 2), (3, 2)],
           "thorough": [(nb, nx) for nb in (1, 2, 3, 4, 5, 7) for nx in (0, 2)]}
 
@@ -52,7 +54,7 @@ def run(ctx):
     # ---- R1: uniqueness / definition lemmas behind the planted instances --------------------
     lm = LEMMA[ctx.tier]
     for fam in FAMS:
-        big = lm["BIG"] if fam in ("lu", "qr", "qp3") else [(n, n) for _, n in lm["BIG"]] if fam == "chol" else []
+        big = lm["BIG"] if fam in ("lu", "qr", "qp3") else [(n, n) for _, n in lm["BIG"]] if fam in ("chol", "tri") else []
         ctx.tlc("lapack/PlantedLemmas.tla", "lapack/PlantedLemmas.cfg", name="R1 PlantedLemmas %s" % fam,
                 subst=dict(FAM=fam, SMALL=lm["SMALL"], BIG=enc(big), NRHS=2, SEED=ctx.seed), workers=4)
 
